@@ -42,7 +42,7 @@ Lemma expand_home_dword W (cmd0 c : str) :
   ~ In 126 cmd0 ->
   expand_home W [(TNone, cmd0); (TNone, dword c)] = [(TNone, cmd0); (TNone, dword c)].
 Proof.
-  intros Hc. unfold expand_home. cbn [map]. unfold expand_home_tok.
+  intros Hc. rewrite expand_home_map. cbn [map]. unfold expand_home_tok.
   cbn [fst snd tag_is_empty tag_eqb]. rewrite (strip_prefix_absent 126 cmd0 Hc). reflexivity.
 Qed.
 
@@ -76,7 +76,7 @@ Lemma expand_env_dword W (cmd0 c : str) :
   ~ In 36 cmd0 -> ~ In 36 c ->
   expand_env W [(TNone, cmd0); (TNone, dword c)] = [(TNone, cmd0); (TNone, dword c)].
 Proof.
-  intros H0 Hc. unfold expand_env. cbn [map]. rewrite (expand_env_tok_dword W c Hc).
+  intros H0 Hc. rewrite expand_env_map. cbn [map]. rewrite (expand_env_tok_dword W c Hc).
   unfold expand_env_tok. cbn [fst snd]. rewrite (env_in_token_no_dollar cmd0 H0). reflexivity.
 Qed.
 
